@@ -750,18 +750,20 @@ class PybindWrapper:
         # Reset the docstring parser so its overload memory does not leak into the next file
         self.xml_parser = XMLDocParser()
 
+        # (built in new lists: the caller's `submodules` is left as it was given)
+        submodules_decl = []
         submodules_init = []
 
         if submodules is not None:
             module_def = "PYBIND11_MODULE({0}, m_)".format(module_name)
 
-            for idx, submodule in enumerate(submodules):
-                submodules[idx] = "void {0}(py::module_ &);".format(submodule)
+            for submodule in submodules:
+                submodules_decl.append(
+                    "void {0}(py::module_ &);".format(submodule))
                 submodules_init.append("{0}(m_);".format(submodule))
 
         else:
             module_def = "void {0}(py::module_ &m_)".format(module_name)
-            submodules = []
 
         return self.module_template.format(
             module_def=module_def,
@@ -769,7 +771,7 @@ class PybindWrapper:
             includes=includes,
             wrapped_namespace=wrapped_namespace,
             boost_class_export=boost_class_export,
-            submodules="\n".join(submodules),
+            submodules="\n".join(submodules_decl),
             submodules_init="\n".join(submodules_init),
         )
 
